@@ -338,6 +338,37 @@ func c33Expect(t, s string) ([]byte, bool) {
 	return b[:bits/8], true
 }
 
+// c33PlainTime: "[+]digits" or "[+]digits.d{1,9}" -> (seconds, nanoseconds); other forms are not judged.
+func c33PlainTime(s string) (sec, ns int64, ok bool) {
+	s = strings.TrimPrefix(s, "+")
+	parts := strings.Split(s, ".")
+	if len(parts) > 2 || parts[0] == "" || len(parts[0]) > 15 {
+		return 0, 0, false
+	}
+	for _, p := range parts {
+		for _, ch := range p {
+			if ch < '0' || ch > '9' {
+				return 0, 0, false
+			}
+		}
+	}
+	for _, ch := range parts[0] {
+		sec = sec*10 + int64(ch-'0')
+	}
+	if len(parts) == 2 {
+		if len(parts[1]) == 0 || len(parts[1]) > 9 {
+			return 0, 0, false
+		}
+		for _, ch := range parts[1] {
+			ns = ns*10 + int64(ch-'0')
+		}
+		for k := len(parts[1]); k < 9; k++ {
+			ns *= 10
+		}
+	}
+	return sec, ns, true
+}
+
 func c33Run(raw json.RawMessage) (res Result, err error) {
 	var in c33In
 	if err = json.Unmarshal(raw, &in); err != nil {
@@ -541,6 +572,26 @@ func c33Run(raw json.RawMessage) (res Result, err error) {
 			}
 			if res.Holds && len(obs.Cols["Epoch"]) != 8*len(in.Lines) {
 				res.Holds, res.Detail = false, "Epoch column has the wrong length"
+			}
+			// timestamps of the plain forms  [+]sec  and  [+]sec.frac (1-9 digits): seconds and nanoseconds
+			// recomputed here, independent of the loader
+			for li, l := range in.Lines {
+				if !res.Holds {
+					break
+				}
+				rec, _ := csv.NewReader(strings.NewReader(l.Text)).Read()
+				sec, ns, ok := c33PlainTime(rec[cvm.ColumnIndex[2]])
+				if !ok {
+					continue
+				}
+				if got := int64(binary.LittleEndian.Uint64(obs.Cols["Epoch"][8*li:])); got != sec {
+					res.Holds, res.Detail = false, fmt.Sprintf("line %d loaded with epoch %d, the file says %d", li, got, sec)
+				}
+				if nb := obs.Cols["Nanoseconds"]; res.Holds && in.Variable && len(nb) >= 4*(li+1) {
+					if got := int64(int32(binary.LittleEndian.Uint32(nb[4*li:]))); got != ns {
+						res.Holds, res.Detail = false, fmt.Sprintf("line %d loaded with %d nanoseconds, the file says %d", li, got, ns)
+					}
+				}
 			}
 		}
 	}
